@@ -186,6 +186,20 @@ SPEC = {
             {"name": "matrix", "test": "TestC13", "checks": [2500, 40000], "shards": [4, 14], "timeout": [900, 7200]},
         ],
     },
+    "C20": {
+        "level": "exploration",
+        "rule": "(c) snapshot cache end-to-end: C02-style programs (snapshot interval/threshold 1..6, late attachers, cache purge/remove steps) "
+                "with history-view steps = documents.GetDocumentByServerSeq at a drawn OLDER serverSeq (what AdminService.GetSnapshotMeta does) "
+                "placed before late attaches and lagging syncs, also in the tail; oracle: every history view and, after each quiescent round, "
+                "12 BuildInternalDocForServerSeq calls in a drawn order of sequences WITHOUT touching the cache in between (so newer and older "
+                "cached documents are met) return exactly the content of the stored log prefix replayed from scratch (no cache, no GC) at the "
+                "requested serverSeq; every sync/attach (snapshot pulls included) succeeds and replicas agree. non-trivial = >=1 warm-cache "
+                "build checked in a case with a snapshot pull and a history view or a cache purge/remove; distinct = distinct program hash.",
+        "assumptions": ["the MongoDB-side caches (doc/changes caches in front of Mongo) are covered only through the exported, DB-free ChangeStore (part a)"],
+        "parts": [
+            {"name": "snapcache", "test": "TestC20Snap", "checks": [600, 8000], "shards": [4, 14], "timeout": [900, 7200]},
+        ],
+    },
 }
 
 # Entries delivered next to their check package (harness/<pkg>/SPEC.py.txt).
